@@ -73,12 +73,13 @@ func checkC14(tier string, seed int64) int {
 	agg, st := NewAgg(), &eqStats{}
 	c.runEquiv(progs, "z3", agg, st)
 	// struct rendering and termination on cyclic graphs: lemma harnesses
-	names := []string{"verifC14Structs", "verifC14Cycles"}
+	names := []string{"verifC14Structs", "verifC14Cycles", "verifC14AnyCycles"}
+	c.nonTerminationFails = true // running past the step / call-depth bound while rendering is a failed obligation
 	res := c.runLemmaHarnesses(names, "z3", agg)
 	c.confirmLemmaFailures(res, func(id string) string { return "printing obligation " + strings.TrimPrefix(id, "C14/") + " fails" })
 	agg.Into(c, "")
 	c.Cov("paths_compared", st.compared)
-	c.Cov("rule", "print templates (Println/Print/Sprint of each scalar kind, slices and single-entry maps of each kind as element/value/key, multi-operand Println, builtin println, nesting depth 2–5 of slices and single-entry maps, empty and nil containers, float literals around the %v thresholds, NaN/±Inf/−0, integer bounds, wrap-around results) with all scalar leaves symbolic: integers are compared as decimal renderings of the 64-bit value (so uint32 ≥ 2^31 and negative int8 are decided for every value), floats as 'the same float64 reaches the same formatter'; plus harnesses for &{Field:value ...} struct rendering in declaration order and for termination of String() on cyclic object graphs")
+	c.Cov("rule", "print templates (Println/Print/Sprint of each scalar kind, slices and single-entry maps of each kind as element/value/key, multi-operand Println, builtin println, nesting depth 2–5 of slices and single-entry maps, empty and nil containers, float literals around the %v thresholds, NaN/±Inf/−0, integer bounds, wrap-around results) with all scalar leaves symbolic: integers are compared as decimal renderings of the 64-bit value (so uint32 ≥ 2^31 and negative int8 are decided for every value), floats as 'the same float64 reaches the same formatter'; plus harnesses for &{Field:value ...} struct rendering in declaration order and for termination of String(), Sprint, Println and println on cyclic object graphs through struct references, typed containers and containers of `any` (self-cycles, 2- and 3-cycles, through slices and maps); exceeding the engine's call-depth / step bound while rendering is reported as a violation and confirmed by the native helper dying of stack exhaustion")
 	c.Assumption("digit generation of fmt/strconv is uninterpreted (dec/flt renderers are injective symbols); multi-entry maps (iteration order) and pointer addresses are outside the claim")
 	_ = gosx.Unsat
 	return c.Finish(false)
